@@ -112,6 +112,11 @@ def deltaEncode (t : DType) (xs : List Int) : Except Err (Int × List Int) :=
   | [] => .error .indexError
   | o :: _ => .ok (o, diffsW t 0 (xs.map fun x => wrap t (x - o)))
 
+/-- `DeltaEncoding(origin=o).encode(data)` with the origin *given* (explicitly, read from a file, or left over from an
+earlier use of the same encoding object) instead of taken from the data. -/
+def deltaEncodeWith (t : DType) (o : Int) (xs : List Int) : List Int :=
+  diffsW t 0 (xs.map fun x => wrap t (x - o))
+
 /-- `DeltaEncoding(src_type, origin).decode(data)` — arithmetic in the *stored* type. -/
 def deltaDecode (t : DType) (origin : Int) (ds : List Int) : List Int :=
   (cumsumW t.supported 0 ds).map fun y => wrap t.supported (y + origin)
@@ -164,6 +169,20 @@ def packEncode (byteCount : Nat) (unsigned : Option Bool) (xs : List Int) : Opti
     some do
       let pt ← packedType byteCount u
       packAll pt xs
+
+/-- The same call on an array of a *wider* dtype (uint32, int64, uint64), as the code really runs it: the sign is
+detected on the data as given, then `data.astype(np.int32, copy=False)` wraps every value modulo 2³² without a range
+check, then the wrapped values are packed. -/
+def packEncodeWide (byteCount : Nat) (unsigned : Option Bool) (xs : List Int) : Except Err (List Int) :=
+  match xs, unsigned with
+  | [], none => .error .valueError
+  | _, _ =>
+    let u := match unsigned with
+      | some b => b
+      | none => xs.all (fun x => decide (0 ≤ x))
+    do
+      let pt ← packedType byteCount u
+      packAll pt (xs.map (wrap .i32))
 
 /-- The loop of `IntegerPackingEncoding.decode`: `acc` is `unpacked_val`. -/
 def unpackLoop (lo hi : Int) : Int → List Int → List Int
